@@ -159,7 +159,32 @@ func (x *Exec) callEffects(c *ssa.CallCommon) effects {
 		e.localArgs = nil
 		return e
 	}
-	if ctr.Neutral {
+	if ctr.Neutral && !ctr.ReadOnly {
+		// the objects directly behind pointer arguments (receiver included) may change
+		ptrArgs := append([]ssa.Value(nil), c.Args...)
+		if c.IsInvoke() {
+			ptrArgs = nil // the receiver of an interface method is behind an interface value: not tracked
+		}
+		for _, a := range ptrArgs {
+			pt, ok := a.Type().Underlying().(*types.Pointer)
+			if !ok {
+				continue
+			}
+			if _, isStruct := pt.Elem().Underlying().(*types.Struct); !isStruct {
+				continue
+			}
+			switch a.(type) {
+			case *ssa.Alloc, *ssa.FieldAddr, *ssa.IndexAddr:
+				continue // handled through localArgs
+			}
+			for _, lf := range flatten(pt.Elem()) {
+				nm := heapName("H", pt.Elem(), lf.Path)
+				x.heapInfo[nm] = heapMeta{"H", pt.Elem(), lf}
+				e.heap = append(e.heap, nm)
+			}
+		}
+	}
+	if ctr.Neutral && !ctr.HasMod {
 		return e
 	}
 	if !ctr.HasMod {
@@ -193,6 +218,60 @@ func (x *Exec) modifiesKeys(ctr *FuncContract, c *ssa.CallCommon, m string) ([]s
 			n := heapName("H", el, lf.Path)
 			x.heapInfo[n] = heapMeta{"H", el, lf}
 			out = append(out, n)
+		}
+		return out, true
+	}
+	if strings.HasPrefix(m, "sink ") {
+		var out []string
+		name := strings.TrimSpace(m[5:])
+		for i, pn := range x.paramNames(ctr, c) {
+			if pn != name {
+				continue
+			}
+			var av ssa.Value
+			if c.IsInvoke() {
+				if i == 0 {
+					av = c.Value
+				} else if i-1 < len(c.Args) {
+					av = c.Args[i-1]
+				}
+			} else if i < len(c.Args) {
+				av = c.Args[i]
+			}
+			if mi, ok := av.(*ssa.MakeInterface); ok {
+				if pt, ok := mi.X.Type().Underlying().(*types.Pointer); ok {
+					for _, lf := range flatten(pt.Elem()) {
+						nm := heapName("H", pt.Elem(), lf.Path)
+						x.heapInfo[nm] = heapMeta{"H", pt.Elem(), lf}
+						out = append(out, nm)
+					}
+					if fa, ok := mi.X.(*ssa.FieldAddr); ok {
+						if off, n, _, base, ok := x.staticFieldPath(fa); ok {
+							leaves := flatten(base)
+							for j := off; j < off+n && j < len(leaves); j++ {
+								nm := heapName("H", base, leaves[j].Path)
+								x.heapInfo[nm] = heapMeta{"H", base, leaves[j]}
+								out = append(out, nm)
+							}
+						}
+					}
+				}
+			}
+		}
+		more, _ := x.modifiesKeys(ctr, c, "any bytes.Buffer")
+		return append(out, more...), true
+	}
+	if strings.HasPrefix(m, "any ") {
+		var out []string
+		for _, h := range x.anyRegions(m[4:], x.calleePkg(c)) {
+			leaves := flatten(h.base)
+			for _, kind := range []string{"H", "M"} {
+				for j := h.lo; j < h.hi; j++ {
+					nm := heapName(kind, h.base, leaves[j].Path)
+					x.heapInfo[nm] = heapMeta{kind, h.base, leaves[j]}
+					out = append(out, nm)
+				}
+			}
 		}
 		return out, true
 	}
@@ -455,6 +534,20 @@ func (x *Exec) doCall(st *State, ins ssa.Instruction, c *ssa.CallCommon, d *defe
 		// statements run in the order written; later ones see earlier assignments
 		nAssert := 0
 		for _, stmt := range ev.Stmts {
+			if stmt.IsAssume {
+				// only for calls whose callee is external to the verified code
+				cl := stmt.C
+				if ctrC := x.findContract(c); ctrC != nil && !ctrC.Extern {
+					panic(fmt.Sprintf("%s:%d: assume is only allowed on calls of external functions", cl.File, cl.Line))
+				}
+				t, err := env.evalBool(cl.Expr)
+				if err != nil {
+					panic(fmt.Sprintf("%s:%d: on call assume: %v", cl.File, cl.Line, err))
+				}
+				x.assumptions[fmt.Sprintf("assumed about external call %s in %s: %s", ev.Pattern, x.funcName(), cl.Expr)] = true
+				st.assume(t)
+				continue
+			}
 			if stmt.IsAssert {
 				cl := stmt.C
 				t, err := env.evalBool(cl.Expr)
@@ -611,6 +704,15 @@ func (x *Exec) applyCallee(st *State, ins ssa.Instruction, c *ssa.CallCommon, ar
 			if !ctr.ReadOnly {
 				x.havocPointeesOnly(st, c, args)
 			}
+			// ... plus whatever an explicit modifies clause adds
+			for _, m := range ctr.Modifies {
+				env := x.newCalleeEnv(pre, ctr, c)
+				bind(env)
+				if !x.tryHavocLvalue(st, m, env) {
+					x.havocPointees(st, c, args)
+					x.havocAllHeap(st)
+				}
+			}
 		}
 		res = x.freshValue(st, "ret_"+shortCallee(names[0]), rt)
 		if ctr.Sticky && len(res.L) == 1 {
@@ -636,6 +738,23 @@ func (x *Exec) applyCallee(st *State, ins ssa.Instruction, c *ssa.CallCommon, ar
 			st.assume(mkAnd(mkCmp(">=", nt, st.top), mkCmp(">=", nt, rets[idx].L[0])))
 			st.top = nt
 		}
+	}
+	for _, w := range ctr.Wraps {
+		env := x.newCalleeEnv(st, ctr, c)
+		bind(env)
+		env.oldState = pre
+		env.rets = rets
+		env.atReturn = true
+		env.retNames = ctr.Results
+		wv, err1 := env.evalString(w[0])
+		iv, err2 := env.evalString(w[1])
+		if err1 != nil || err2 != nil || len(wv.L) == 0 || len(iv.L) != 1 {
+			panic(fmt.Sprintf("%s: wraps %s %s at call in %s cannot be evaluated", ctr.Name, w[0], w[1], x.funcName()))
+		}
+		if st.sinkOf == nil {
+			st.sinkOf = map[string]Value{}
+		}
+		st.sinkOf[wv.L[0].S] = iv
 	}
 	// callee ghost variables are existential for the caller
 	for _, cl := range ctr.Ensures {
@@ -726,6 +845,12 @@ func (x *Exec) havocPointees(st *State, c *ssa.CallCommon, args []Value) {
 // havocPointeesOnly forgets local cells (and heap objects) directly pointed to by pointer arguments.
 func (x *Exec) havocPointeesOnly(st *State, c *ssa.CallCommon, args []Value) {
 	for _, a := range args {
+		if a.P == nil && a.T != nil && isPointer(a.T) && len(a.L) == 1 {
+			// a pointer without known structure (loaded, or returned by a call): the object of its static type
+			if _, isStruct := a.T.Underlying().(*types.Pointer).Elem().Underlying().(*types.Struct); isStruct {
+				a.P = x.deref(a)
+			}
+		}
 		if a.P == nil {
 			continue
 		}
@@ -807,6 +932,27 @@ func (x *Exec) havocLvalueIn(st *State, m string, env *Env) {
 			cur := x.mapVal(st, mt, lf)
 			x.mapSet(st, "MapV:"+typeKey(mt)+":"+lf.Path, mkStore(cur, v.one(), x.fresh(st, "mod_mapval", arrSortK(ks, lf.Sort))))
 		}
+		return
+	}
+	if strings.HasPrefix(m, "sink ") {
+		// the object behind an io.Writer-like interface value: the pointee when the value is a known
+		// boxed pointer, otherwise any bytes.Buffer anywhere
+		p, class := x.resolveSink(env, strings.TrimSpace(m[5:]))
+		switch class {
+		case sinkStateless:
+			return
+		case sinkKnown:
+			x.store(st, p, x.freshValue(st, "mod_sink", p.Sub))
+			return
+		case sinkOlder:
+			// an io.Writer handed in by the caller cannot reach objects this activation allocated
+			x.havocAny(st, "bytes.Buffer", env.pkg, true)
+			return
+		}
+		m = "any bytes.Buffer"
+	}
+	if strings.HasPrefix(m, "any ") {
+		x.havocAny(st, m[4:], env.pkg, false)
 		return
 	}
 	if strings.HasPrefix(m, "ghost ") {
@@ -955,7 +1101,9 @@ func (x *Exec) doAppend(st *State, ins ssa.Instruction, c *ssa.CallCommon, args 
 		lf := flatten(sl.Elem())[0]
 		cur := x.heapCurE(st, "M", sl.Elem(), lf)
 		na := x.defineArr(st, "strtail", sInt, func(i Term) Term { return app("sbyte", sInt, str, i) })
+		x.initWrite = true
 		x.heapSet(st, "M", sl.Elem(), lf, mkStore(cur, r, na))
+		x.initWrite = false
 		tail = mkSliceVal(s.T, r, tZero, n, n)
 	} else {
 		tail = args[1]
@@ -1042,4 +1190,114 @@ func sortedKeys[M ~map[string]V, V any](m M) []string {
 	}
 	sort.Strings(out)
 	return out
+}
+
+// sink classes
+const (
+	sinkKnown     = iota // the object written to is known (Ptr)
+	sinkStateless        // *os.File and the like: nothing the verifier tracks
+	sinkOlder            // unknown object that existed at function entry (an io.Writer parameter)
+	sinkUnknown          // anything
+)
+
+// resolveSink works out what a sink expression writes to. The expression is an io.Writer-like interface
+// value or a pointer to a wrapping writer (recorded by a `wraps` clause).
+func (x *Exec) resolveSink(env *Env, expr string) (p *Ptr, class int) {
+	class = sinkUnknown
+	defer func() {
+		if r := recover(); r != nil {
+			p, class = nil, sinkUnknown
+		}
+	}()
+	v, err := env.evalString(expr)
+	if err != nil || v.T == nil || len(v.L) == 0 {
+		return nil, sinkUnknown
+	}
+	return x.resolveSinkValue(env.st, v, 0)
+}
+
+func (x *Exec) resolveSinkValue(st *State, v Value, depth int) (*Ptr, int) {
+	if depth > 4 || len(v.L) == 0 {
+		return nil, sinkUnknown
+	}
+	if isPointer(v.T) {
+		if inner, ok := st.sinkOf[v.L[0].S]; ok {
+			return x.resolveSinkValue(st, inner, depth+1)
+		}
+		if statelessSink(v.T) {
+			return nil, sinkStateless
+		}
+		// a foreign writer type (bufio.Writer, flate.Writer, ...) without a recorded inner writer passes
+		// the bytes on to something unknown
+		if n, ok := v.T.Underlying().(*types.Pointer).Elem().(*types.Named); ok && n.Obj().Pkg() != nil {
+			pp := n.Obj().Pkg().Path()
+			if !(pp == "bytes" && n.Obj().Name() == "Buffer") && !strings.HasPrefix(pp, modulePath) {
+				return nil, sinkUnknown
+			}
+		}
+		return x.deref(v), sinkKnown
+	}
+	if !isInterface(v.T) || len(v.L) != 1 {
+		return nil, sinkUnknown
+	}
+	if bv, ok := st.boxed[v.L[0].S]; ok {
+		if !isPointer(bv.T) {
+			return nil, sinkUnknown
+		}
+		return x.resolveSinkValue(st, bv, depth+1)
+	}
+	if x.paramTerms[v.L[0].S] {
+		return nil, sinkOlder
+	}
+	return nil, sinkUnknown
+}
+
+// sinkPointee returns the object a sink expression writes to when that is known.
+func (x *Exec) sinkPointee(env *Env, expr string) *Ptr {
+	p, class := x.resolveSink(env, expr)
+	switch class {
+	case sinkKnown:
+		return p
+	case sinkStateless:
+		return &Ptr{Kind: pLocal, Cell: -1}
+	}
+	return nil
+}
+
+// statelessSink: *os.File values carry no state that specifications can read (the file system is outside
+// the heap model), so writing to one changes nothing the verifier tracks.
+func statelessSink(t types.Type) bool {
+	pt, ok := t.Underlying().(*types.Pointer)
+	if !ok {
+		return false
+	}
+	n, ok := pt.Elem().(*types.Named)
+	return ok && n.Obj().Pkg() != nil && n.Obj().Pkg().Path() == "os" && n.Obj().Name() == "File"
+}
+
+// havocAny forgets the field of every object of a type, wherever such objects live: the whole heap arrays
+// are replaced. Objects private to this activation keep their values; with olderOnly, so does every object
+// allocated since function entry.
+func (x *Exec) havocAny(st *State, what string, pkg *ssa.Package, olderOnly bool) {
+	priv := sortedKeys(st.private)
+	for _, h := range x.anyRegions(what, pkg) {
+		leaves := flatten(h.base)
+		for _, kind := range []string{"H", "M"} {
+			for k := h.lo; k < h.hi; k++ {
+				old := x.heapCurE(st, kind, h.base, leaves[k])
+				name := heapName(kind, h.base, leaves[k].Path)
+				x.heapHavoc(st, name)
+				st.writeLog = append(st.writeLog, name)
+				nw := st.heap[name]
+				if olderOnly {
+					st.assume(Term{fmt.Sprintf("(forall ((r!q Int)) (! (=> (> r!q %s) (= (select %s r!q) (select %s r!q))) :pattern ((select %s r!q))))", x.entry.top.S, nw.S, old.S, nw.S), sBool})
+				} else if kind == "H" {
+					for _, r := range priv {
+						rt := Term{r, sInt}
+						st.assume(mkEq(mkSelect(nw, rt), mkSelect(old, rt)))
+					}
+				}
+			}
+		}
+	}
 }
